@@ -20,7 +20,7 @@ import (
 
 type CGEdge struct {
 	Callee *ssa.Function
-	Site   ssa.Instruction // nil for synthetic edges
+	Site   ssa.CallInstruction // nil for synthetic edges
 	Kind   string          // call | go | defer | hof (passed to external higher-order function)
 }
 
@@ -76,6 +76,19 @@ func (c *Ctx) CG() *CallGraph {
 	g.nCHA = conv(chaG, g.chaOut)
 	vtaG := vta.CallGraph(g.funcs, chaG)
 	g.nVTA = conv(vtaG, g.vtaOut)
+	// hybrid: VTA cannot resolve an interface call whose receiver came back from a dependency (context.Value, sync.Map …);
+	// for call sites where VTA found no callee fall back to the CHA callees (sound), keeping VTA's precision elsewhere.
+	for fn, chaEdges := range g.chaOut {
+		has := map[ssa.Instruction]bool{}
+		for _, e := range g.vtaOut[fn] {
+			has[e.Site] = true
+		}
+		for _, e := range chaEdges {
+			if e.Site != nil && !has[e.Site] && e.Site.Common().IsInvoke() {
+				g.vtaOut[fn] = append(g.vtaOut[fn], e)
+			}
+		}
+	}
 	// external higher-order edges
 	for fn := range g.funcs {
 		for _, b := range fn.Blocks {
@@ -103,7 +116,7 @@ func (c *Ctx) CG() *CallGraph {
 				}
 				for _, a := range com.Args {
 					for _, target := range funcValues(a, 0) {
-						e := CGEdge{Callee: target, Site: ins, Kind: kind}
+						e := CGEdge{Callee: target, Site: ci, Kind: kind}
 						g.chaOut[fn] = append(g.chaOut[fn], e)
 						g.vtaOut[fn] = append(g.vtaOut[fn], e)
 						g.nHOF++
@@ -169,25 +182,110 @@ func (c *Ctx) CG() *CallGraph {
 			}
 		}
 	}
-	var walk func(fn *ssa.Function)
-	walk = func(fn *ssa.Function) {
+	// RTA-style refinement of CHA: a method of a module-declared named type is entered through dynamic dispatch only if a
+	// value of that type is created somewhere in live code (composite literal / new / var / conversion to an interface).
+	inst := map[*types.Named]bool{}
+	noteType := func(t types.Type) {
+		var visit func(t types.Type, d int)
+		visit = func(t types.Type, d int) {
+			if d > 3 {
+				return
+			}
+			switch x := t.(type) {
+			case *types.Pointer:
+				visit(x.Elem(), d+1)
+			case *types.Named:
+				if !inst[x.Origin()] {
+					inst[x.Origin()] = true
+					// embedded structs are created with their container
+					if st, ok := x.Underlying().(*types.Struct); ok {
+						for i := 0; i < st.NumFields(); i++ {
+							if st.Field(i).Embedded() {
+								visit(st.Field(i).Type(), d+1)
+							}
+						}
+					}
+				}
+			case *types.Slice:
+				visit(x.Elem(), d+1)
+			case *types.Array:
+				visit(x.Elem(), d+1)
+			case *types.Map:
+				visit(x.Elem(), d+1)
+			}
+		}
+		visit(t, 0)
+	}
+	recvNamed := func(fn *ssa.Function) *types.Named {
+		if fn.Signature.Recv() == nil {
+			return nil
+		}
+		if n := namedOf(fn.Signature.Recv().Type()); n != nil && n.Obj().Pkg() != nil && strings.HasPrefix(n.Obj().Pkg().Path(), modPath) {
+			return n.Origin()
+		}
+		return nil
+	}
+	scanned := map[*ssa.Function]bool{}
+	pendingByType := map[*types.Named][]*ssa.Function{}
+	var walk func(fn *ssa.Function, dynamic bool)
+	walk = func(fn *ssa.Function, dynamic bool) {
 		if g.live[fn] {
 			return
+		}
+		if dynamic {
+			if rn := recvNamed(fn); rn != nil && !inst[rn] {
+				pendingByType[rn] = append(pendingByType[rn], fn)
+				return
+			}
 		}
 		g.live[fn] = true
 		if o := fn.Origin(); o != nil {
 			g.live[o] = true
 		}
+		if !scanned[fn] {
+			scanned[fn] = true
+			for _, b := range fn.Blocks {
+				for _, ins := range b.Instrs {
+					switch x := ins.(type) {
+					case *ssa.Alloc:
+						noteType(x.Type())
+					case *ssa.MakeInterface:
+						noteType(x.X.Type())
+					case *ssa.MakeSlice:
+						noteType(x.Type())
+					case *ssa.MakeMap:
+						noteType(x.Type())
+					case *ssa.Convert:
+						noteType(x.Type())
+					}
+				}
+			}
+			for _, p := range fn.Params {
+				_ = p
+			}
+		}
 		for _, e := range g.chaOut[fn] {
-			walk(e.Callee)
+			dyn := e.Site != nil && e.Site.Common().StaticCallee() == nil && e.Kind != "hof" && e.Kind != "go-hof"
+			walk(e.Callee, dyn)
 		}
 		for _, t := range refOut[fn] {
-			walk(t)
+			walk(t, false)
 		}
-		// anonymous functions are live with their parent only if referenced; MakeClosure references are covered by CHA edges of their callers.
 	}
 	for _, r := range roots {
-		walk(r)
+		walk(r, false)
+	}
+	for changed := true; changed; {
+		changed = false
+		for t, fns := range pendingByType {
+			if inst[t] && len(fns) > 0 {
+				pendingByType[t] = nil
+				for _, fn := range fns {
+					walk(fn, false)
+				}
+				changed = true
+			}
+		}
 	}
 	c.cg = g
 	return g
